@@ -234,6 +234,27 @@ class Recorder:
             f = f.f_back
         return True
 
+    def belongs(self, obj):
+        """False when `obj` is a node / handle / simulated qubit of a network that is no longer the live one: a
+        generator of an abandoned schedule being closed by the garbage collector.  `live()` cannot see that when the
+        collection happens to be triggered from inside twisted's `_inlineCallbacks` of the CURRENT operation (the
+        closing generator's caller frame then looks like a genuine resumption)."""
+        net = S._LIVE
+        if net is None:
+            return True
+        try:
+            node = obj
+            if hasattr(obj, "virtNode"):
+                node = obj.virtNode
+            elif hasattr(obj, "node") and hasattr(obj, "register"):
+                node = getattr(obj.node, "root", obj.node)
+            name = getattr(node, "name", None)
+            if name is None or not hasattr(node, "virtQubits"):
+                return True
+            return net.nodes.get(name) is node
+        except Exception:
+            return True
+
     # -- wrappers ------------------------------------------------------------------------------------------------
     def _bind(self, key, fn, obj, a, k):
         sig = self._sig_cache.get(key)
@@ -252,7 +273,7 @@ class Recorder:
         def wrapper(obj, *a, **k):
             if not rec.enabled:
                 return fn(obj, *a, **k)
-            if not rec.live():
+            if not rec.live() or not rec.belongs(obj):
                 rec.finalised += 1
                 tok = _FRAME.set(None)
                 try:
@@ -321,7 +342,7 @@ class Recorder:
             parent = _FRAME.get()
             if parent is None or not rec.enabled:
                 return fn(obj, *a, **k)
-            if not rec.live():
+            if not rec.live() or not rec.belongs(obj):
                 tok = _FRAME.set(None)
                 try:
                     return fn(obj, *a, **k)
